@@ -20,6 +20,12 @@ class TapeRecorder:
     def keys(self):
         return self._keys
 
+    def __bool__(self):
+        raise TypeError('The truth value of a multivector is not known while the function using it is being compiled.')
+
+    def __eq__(self, other):
+        raise TypeError('Multivectors can not be compared while the function using them is being compiled.')
+
     @cached_property
     def type_number(self) -> int:
         return int(''.join('1' if i in self.keys() else '0' for i in reversed(self.algebra.canon2bin.values())), 2)
